@@ -146,6 +146,37 @@ fn migrate_to_code_without_migrate_entry_point() {
     }
 }
 
+/// found missing by seed C12k: the stored admin is a string the Api cannot canonicalize (the admin
+/// given at instantiation is stored as provided) and so is the sender — two different strings are two
+/// different accounts
+fn admin_and_sender_outside_the_address_format() {
+    let mut app = App::default();
+    let creator = addr("creator");
+    let code1 = app.store_code(sc::contract());
+    let code2 = app.store_code(sc::contract_v2());
+    let c = app.instantiate_contract(code1, creator.clone(), &Script::new().write("m", "1"), &[], "c", Some("plain-admin".to_string())).unwrap();
+    let who = [Addr::unchecked("stranger"), Addr::unchecked("PLAIN-ADMIN"), Addr::unchecked("plain-admin ")][choose(3)].clone();
+    let msg: CosmosMsg = match choose(3) {
+        0 => WasmMsg::Migrate { contract_addr: c.to_string(), new_code_id: code2, msg: Script::new().bin() }.into(),
+        1 => WasmMsg::ClearAdmin { contract_addr: c.to_string() }.into(),
+        _ => WasmMsg::UpdateAdmin { contract_addr: c.to_string(), admin: creator.to_string() }.into(),
+    };
+    let before = snapshot(&app);
+    match catch(|| app.execute(who.clone(), msg.clone())) {
+        Err(p) => failure("no_panic", "panic", p),
+        Ok(Ok(_)) => {
+            check_native("only_the_current_admin_may_do_this", false, || format!("{:?} by {:?} succeeded, admin is plain-admin", msg, who));
+        }
+        Ok(Err(_)) => {
+            witness("odd_sender_denied");
+            check_unchanged("denied_attempt_leaves_code_admin_and_storage_unchanged", &app, &before);
+        }
+    }
+    // the admin itself is let through
+    let r = app.execute(Addr::unchecked("plain-admin"), WasmMsg::ClearAdmin { contract_addr: c.to_string() }.into());
+    check_native("the_current_admin_may_do_this", r.is_ok(), || format!("{:?}", r.as_ref().err().map(|e| e.to_string())));
+}
+
 /// the migrate entry point of the new code emits admin operations as sub-messages: they are checked
 /// against the MIGRATED CONTRACT as sender (found missing by seed C12b)
 fn migrate_emitting_admin_ops() {
@@ -195,6 +226,7 @@ pub fn scenarios(tier: &str) -> Vec<Scenario> {
     let mut v = vec![
         Scenario::new("sequences_of_2", &["allowed_ok", "denied", "migrated", "end"], || run(2)),
         Scenario::new("migration_emitting_admin_operations", &["nested_allowed", "nested_denied"], migrate_emitting_admin_ops),
+        Scenario::new("admin_and_sender_outside_the_address_format", &["odd_sender_denied"], admin_and_sender_outside_the_address_format),
         Scenario::new("migration_to_code_without_migrate_entry_point", &["bare_target_rejected"], migrate_to_code_without_migrate_entry_point),
     ];
     if tier == "thorough" {
